@@ -1,10 +1,137 @@
-(* C05 -- Kekule and aromatic forms describe the same molecule.  Statements only; proofs in Proofs.KekuleProofs. *)
+(* C05 -- Kekule and aromatic forms describe the same molecule; conversions are stable (PARTIAL by design).
+   Statements only; proofs in Proofs.KekuleProofs.  Model.Kekule has
+     - the boolean specifications kekule_rel / thiele_rel (run on every output of the real code by the check),
+     - the algorithm-level model of Kekule.__prepare_rings (classify_atom, prepare_rings) and of the driver Kekule.kekule
+       (kekule_driver; the backtracking search and calc_implicit are arguments of it: the theorems hold for ANY search).
+   Not theorems (correspondence / search only): that the outputs of the real search are accepted by the checkers, that all
+   enumerated forms aromatise to one form, independence of the numbering. *)
 From Coq Require Import ZArith List Bool.
 From Model Require Import PyBase Graph Kekule.
 From Proofs Require Import KekuleProofs.
 Import ListNotations.
 Open Scope Z_scope.
 
+(* ---- what every accepted Kekule form preserves: atoms (element, isotope, charge, radical, stereo label), the skeleton
+   with its neighbour order, hence heavy-atom formula, total charge, number of radical centres *)
+Theorem C05_kekule_rel_preserves : forall g g', kekule_rel_core g g' = true ->
+  ids g = ids g' /\ core_of g = core_of g' /\ graph_of g = graph_of g' /\
+  map (fun x => a_stereo (snd x)) (m_atoms g) = map (fun x => a_stereo (snd x)) (m_atoms g') /\
+  total_charge g = total_charge g' /\ radical_count g = radical_count g' /\
+  (forall z, element_count z g = element_count z g').
+Proof. exact kekule_rel_preserves. Qed.
+Print Assumptions C05_kekule_rel_preserves.
+
+(* ---- hydrogens: every known count is kept atom by atom; if all were known, the total (the full formula) is kept *)
+Theorem C05_kekule_rel_hydrogens : forall g g', kekule_rel_core g g' = true -> kr_h g g' = true ->
+  (forall n a h, atom_of g n = Some a -> a_h a = Some h -> exists a', atom_of g' n = Some a' /\ a_h a' = Some h) /\
+  (all_h_known g = true -> total_h g = total_h g' /\ all_h_known g' = true).
+Proof. exact kekule_rel_hydrogens. Qed.
+Print Assumptions C05_kekule_rel_hydrogens.
+
+(* ---- an accepted Kekule form has no aromatic bond left, no atom with two new double bonds, and (valence clause) a known
+   hydrogen count on every former ring atom *)
+Theorem C05_kekule_rel_valid : forall g g', kekule_rel_core g g' = true ->
+  no_arom g' = true /\
+  forallb2 (fun x y => new_doubles (snd x) (snd y) <=? 1) (m_adj g) (m_adj g') = true /\
+  (kr_valence g g' = true ->
+   forall n l, In (n, l) (m_adj g) -> arom_deg l <> 0 -> exists a', atom_of g' n = Some a' /\ h_known a' = true).
+Proof. exact kekule_rel_valid. Qed.
+Print Assumptions C05_kekule_rel_valid.
+
+(* ---- repeating the conversion changes nothing.  Specification level: a molecule without aromatic bonds is an accepted
+   form of itself, and every accepted form of it has exactly its bond orders. *)
+Theorem C05_kekule_rel_refl : forall g, no_arom g = true -> kekule_rel g g = true.
+Proof. exact kekule_rel_refl. Qed.
+Print Assumptions C05_kekule_rel_refl.
+
+Theorem C05_kekule_rel_noarom_same : forall g g', no_arom g = true -> kekule_rel_core g g' = true -> same_orders g g' = true.
+Proof. exact kekule_rel_noarom_same. Qed.
+Print Assumptions C05_kekule_rel_noarom_same.
+
+(* Algorithm level (kekule_noop of DESIGN.md): the driver returns such a molecule unchanged and answers False, for any
+   ring set, any search, any hydrogen oracle.  (With kekule_rel_valid: the second application to an accepted output.) *)
+Theorem C05_kekule_noop : forall g sssr search calc, no_arom g = true -> kekule_driver g sssr search calc = Ok (g, false).
+Proof. exact kekule_noop. Qed.
+Print Assumptions C05_kekule_noop.
+
 Theorem C05_prepare_rings_no_arom : forall g sssr, scan_ord g 4 = [] -> prepare_rings g sssr = Ok (mkPrep [] [] [] []).
 Proof. exact prepare_rings_no_arom. Qed.
 Print Assumptions C05_prepare_rings_no_arom.
+
+(* ---- whatever the heuristic search and the hydrogen oracle return, Kekule.kekule (driver model) cannot change atoms,
+   charges, radicals or connectivity: it only writes bond orders and hydrogen counts *)
+Theorem C05_kekule_driver_preserves : forall g sssr search calc g' r,
+  kekule_driver g sssr search calc = Ok (g', r) ->
+  ids g' = ids g /\ core_of g' = core_of g /\ graph_of g' = graph_of g /\
+  total_charge g' = total_charge g /\ radical_count g' = radical_count g /\ (forall z, element_count z g' = element_count z g).
+Proof. exact kekule_driver_preserves. Qed.
+Print Assumptions C05_kekule_driver_preserves.
+
+(* ---- the aromatic side *)
+Theorem C05_thiele_rel_preserves : forall g g', thiele_rel_core g g' = true ->
+  ids g = ids g' /\ core_of g = core_of g' /\ graph_of g = graph_of g' /\
+  total_charge g = total_charge g' /\ radical_count g = radical_count g' /\
+  (forall z, element_count z g = element_count z g') /\
+  (tr_h g g' = true -> map (fun x => a_h (snd x)) (m_atoms g) = map (fun x => a_h (snd x)) (m_atoms g')).
+Proof. exact thiele_rel_preserves. Qed.
+Print Assumptions C05_thiele_rel_preserves.
+
+(* an accepted Kekule step is undone by an accepted Thiele step (the two relations describe the same pairs) *)
+Theorem C05_kekule_thiele_inverse : forall g k, kekule_rel_core g k = true -> thiele_rel_core k g = true.
+Proof. exact kekule_thiele_inverse. Qed.
+Print Assumptions C05_kekule_thiele_inverse.
+
+(* ---- the atom classifier of __prepare_rings, for ALL integer inputs: equal to the table class_table over finitely many
+   classes of element / charge / neighbour count / hydrogen count; total (InvalidAromaticRing is the only exception);
+   every element outside B C N O P S As Se Te is refused *)
+Theorem C05_prepare_rings_classes : forall num chg rad nb h indb,
+  classify_atom num chg rad nb h indb =
+  class_table (eclass_of num) (cclass_of chg) rad (nclass_of nb) (hclass_of h) indb.
+Proof. exact prepare_rings_classes. Qed.
+Print Assumptions C05_prepare_rings_classes.
+
+Theorem C05_classify_total : forall num chg rad nb h indb,
+  match classify_atom num chg rad nb h indb with Ok _ => True | Err e => e = OtherError end.
+Proof. exact classify_total. Qed.
+Print Assumptions C05_classify_total.
+
+Theorem C05_classify_elements : forall num chg rad nb h indb,
+  ~ In num [5; 6; 7; 8; 15; 16; 33; 34; 52] -> classify_atom num chg rad nb h indb = Err OtherError.
+Proof. exact classify_elements. Qed.
+Print Assumptions C05_classify_elements.
+
+(* ---- non-vacuity: accepted and rejected concrete rings; every listed element has accepted states; the driver on benzene *)
+Theorem C05_classify_accepts_each_element :
+  forallb (fun num => existsb (fun chg => existsb (fun nb =>
+     match classify_atom num chg false nb None false with Ok _ => true | Err _ => false end) [2; 3; 4]) [-1; 0; 1])
+    [5; 6; 7; 8; 15; 16; 33; 34; 52] = true.
+Proof. exact classify_accepts_each_element. Qed.
+Print Assumptions C05_classify_accepts_each_element.
+
+Theorem C05_kekule_rel_examples :
+  kekule_rel benzene_a benzene_k = true /\ kekule_rel pyrrole_a pyrrole_k = true /\ kekule_rel pyridine_a pyridine_k = true /\
+  thiele_rel benzene_k benzene_a = true /\ thiele_rel pyrrole_k pyrrole_a = true /\
+  kekule_rel benzene_a (ring [cH; cH; cH; cH; cH; cH] [2; 2; 1; 1; 2; 1]) = false /\
+  kekule_rel pyrrole_a (ring [nH; cH; cH; cH; cH] [2; 1; 2; 1; 1]) = false /\
+  kekule_rel (ring [n_ (Some 0); cH; cH; cH; cH; cH] [4; 4; 4; 4; 4; 4]) (ring [n_ (Some 0); cH; cH; cH; cH; cH] [1; 2; 1; 2; 1; 1]) = false /\
+  kekule_rel benzene_a (ring [cH; cH; cH; cH; cH; cH] [2; 1; 2; 1; 4; 4]) = false /\
+  kekule_rel benzene_a (ring [mkAtom 6 None 1 false (Some 1) None; cH; cH; cH; cH; cH] [2; 1; 2; 1; 2; 1]) = false /\
+  kekule_rel benzene_a (ring [mkAtom 6 None 0 false (Some 2) None; cH; cH; cH; cH; cH] [2; 1; 2; 1; 2; 1]) = false /\
+  kekule_rel benzene_a (ring [n_ (Some 1); cH; cH; cH; cH; cH] [2; 1; 2; 1; 2; 1]) = false /\
+  thiele_rel (ring [cH; cH; cH; cH; cH; cH] [3; 1; 2; 1; 2; 1]) benzene_a = false /\
+  thiele_rel (ring [cH; cH; cH; cH; cH; cH] [2; 2; 1; 1; 2; 1]) benzene_a = false /\
+  thiele_rel quinone_k quinone_k = true /\ thiele_rel quinone_k quinone_a = false.
+Proof. exact kekule_rel_examples. Qed.
+Print Assumptions C05_kekule_rel_examples.
+
+Theorem C05_kekule_driver_examples :
+  prep_eqb (prepare_rings pyrrole_a [[1; 2; 3; 4; 5]]) [(1, [5; 2]); (2, [1; 3]); (3, [2; 4]); (4, [3; 5]); (5, [4; 1])] [] [1] = true /\
+  prep_eqb (prepare_rings pyridine_a [[1; 2; 3; 4; 5; 6]])
+           [(1, [6; 2]); (2, [1; 3]); (3, [2; 4]); (4, [3; 5]); (5, [4; 6]); (6, [5; 1])] [1] [] = true /\
+  prep_raises (prepare_rings (mkMol [(1, cH); (2, cH)] [(1, [(2, mkBond 4 None)]); (2, [(1, mkBond 4 None)])]) []) = true /\
+  match kekule_driver benzene_a [[1; 2; 3; 4; 5; 6]] (fun _ _ _ => Ok (Some benzene_form)) (fun _ _ => Some 1) with
+  | Ok (g', r) => mol_eqb g' benzene_k && r && kekule_rel benzene_a g'
+  | Err _ => false
+  end = true.
+Proof. exact kekule_driver_examples. Qed.
+Print Assumptions C05_kekule_driver_examples.
